@@ -2,6 +2,34 @@
 //! state change is already durable).  They are switched on in every history engine.
 
 use crate::vmc::Vio;
+use std::sync::atomic::{AtomicBool, Ordering};
+
+/// The input-shape engines (C05, C07, C08) run these monitors around their requests when this
+/// is set (done by the C10 / C11 checks).
+static GRID_MONITORS: AtomicBool = AtomicBool::new(false);
+
+pub fn set_grid_monitors(on: bool) {
+    GRID_MONITORS.store(on, Ordering::SeqCst);
+}
+
+pub fn grid_monitors() -> bool {
+    GRID_MONITORS.load(Ordering::SeqCst)
+}
+
+/// monitors around one request of a grid engine
+pub fn around<T>(w: &World, before: &Option<Value>, o: &Outcome<T>, kind: &str, vios: &mut Vec<Vio>) {
+    if before.is_none() {
+        return;
+    }
+    match o {
+        Outcome::Err(e) => {
+            let after = w.snapshot();
+            refusal_monitor(before.as_ref().unwrap(), &after, kind, e, vios);
+        }
+        Outcome::Ok(_) => durability_monitor(w, kind, "ok", vios),
+        Outcome::Panic(_) => {}
+    }
+}
 use crate::world::*;
 use serde_json::{json, Value};
 
